@@ -560,6 +560,8 @@ class Gen:
             elif i > 0 and r < self.p['p_mutate_step'] + \
                     self.p['p_clean_step']:
                 steps.append({'op': 'clean'})
+                if rng.random() < 0.3:
+                    steps[-1]['anon'] = True     # build_name=None
                 if self.chance('p_double_clean'):
                     steps.append({'op': 'clean'})
             elif i > 0 and self.chance('p_chdir_step'):
@@ -617,6 +619,8 @@ class Gen:
                 'cache_rel': cache_rel,
                 'build_name': 'B',
                 'listdir_seed': rng.randrange(1 << 30),
+                'cache_spelling': rng.choice(
+                    [None, None, None, 'bytes', 'pathlike', 'redundant']),
             },
             'universe': U,
             'groups': groups,
